@@ -431,7 +431,9 @@ theorem stmt_arms_as_modelled : C07Arms.stmtArms = TcInferPinned.stmtArms := rfl
 theorem literal_arms_as_modelled : C07Arms.literalArms = TcInferPinned.literalArms := rfl
 /-- … `block`, `match_expr`, `binop`, `check_arguments`, `record_fields`,
     `path_function_call`, `method_call`, `access_field`, `function`, `constant`,
-    `filter_map`, `test`, `unify` -/
+    `filter_map`, `test`, `unify`, `resolve_obligations` (the deferred `to_string`
+    obligations: `TcInfer.resolveObligations`; its signature comparison is decided
+    in `Props/C07Builtin.lean`) -/
 theorem helper_skeletons_as_modelled : C07Arms.fnSkeletons = TcInferPinned.fnSkeletons := rfl
 
 example : C07Arms.exprArms.length = 20 := by decide
